@@ -44,6 +44,7 @@ ASSERTS = [
     ("fassert_nonzero", "{f}.assert_nonzero()"), ("fassert_range", "{f}.assert_range({c}, {c})"),
     ("unpack_intmod", "PackIntMod({m}).unpack({i}.to_bits(({m} - 1).bit_length()), 0)"),
     ("pack_intmod", "PackIntMod({m}).pack({i})"),
+    ("unpack_wires", "PackIntMod({m}).unpack([{i}, {i}, {i}][:({m} - 1).bit_length()], 0)"),
     ("unpack_list_mixed", "PackList([PackBool(), PackIntMod({m})]).unpack([1] + {i}.to_bits(({m} - 1).bit_length()), 0)"),
 ]
 # fresh boolean declarations: the wire is allocated inside the operation, left unknown, and must be exactly {0,1}
@@ -131,6 +132,10 @@ def make_case(tid, tmpl, bl, rnd):
         # same modulus in both slots; value below 2^bitlen so that the decomposition itself is valid
         cs = [cs[0], cs[0]]
         ins[0] = rnd.randint(0, (1 << (cs[0] - 1).bit_length()) - 1)
+    if tid == "unpack_wires":
+        # plain secret wires handed in as bits (they may not be bits): what is enforced is the value they add up to
+        cs = [rnd.choice([2, 3, 4, 5, 6, 7, 8])] * 2
+        ins = [rnd.choice([0, 1, 0, 1, 2, 3, 5]) for _ in ins]
     if tid == "pack_intmod":
         ins[0] = rnd.randint(-1, (1 << (cs[0] - 1).bit_length()) + 1)
     c = opcases.Case(tid, tmpl, bl, res, ins, cs, None)
